@@ -148,6 +148,7 @@ class DelayRun:
         self.crash = None
         self.vm = None
         self.finished = False
+        self.calls = 0
 
     # time ----------------------------------------------------------------------------------------------
     def tick(self):
@@ -172,6 +173,7 @@ class DelayRun:
         def cb(**kw):
             if self.finished:       # machine teardown advances the clock; not part of the case
                 return
+            self.watchdog()
             how = "R" if self.sync else "F"
             self.sync = False
             tag, arg, t = kw.get("tag"), kw.get("arg"), self.tick()
@@ -183,9 +185,17 @@ class DelayRun:
         cb.__name__ = "cb%d" % k
         return cb
 
+    def watchdog(self):
+        """a runaway loop at one instant (virtual time never advances) must end the case, not hang the check"""
+        self.calls += 1
+        if self.calls > 4000:
+            self.finished = True
+            raise RuntimeError("runaway: more than 4000 callbacks in one case")
+
     def ptick(self, pid):
         if self.finished:
             return
+        self.watchdog()
         self.task_n[pid] += 1
         t = self.tick()
         self.group(["pfire", pid])
@@ -666,6 +676,9 @@ class TimerRun:
         def on_event(ticks=None, **kwargs):
             if not self.finished:
                 self.log.append(("event", ev, ticks, self.tick()))
+                if len(self.log) > 6000:
+                    self.finished = True
+                    raise RuntimeError("runaway: more than 6000 timer events in one case")
         return on_event
 
 
